@@ -320,7 +320,13 @@ func c09Run(c c09Case) Verdict {
 						wantCodes = append(wantCodes, 235)
 						outcome = "success"
 					} else {
-						wantCodes = append(wantCodes, decisionCode(sc.Final, 454))
+						if sc.Final.Kind == "plain" {
+							// (which negative code an error that is not an
+							// SMTPError gets is the server's business)
+							wantCodes = append(wantCodes, -4)
+						} else {
+							wantCodes = append(wantCodes, decisionCode(sc.Final, 454))
+						}
 						outcome = "failed"
 					}
 					break
@@ -706,6 +712,9 @@ func c09ClientRun(c c09ClientCase) Verdict {
 	case "failed":
 		se, isSMTP := authErr.(*smtp.SMTPError)
 		want := decisionCode(c.Server.Final, 454)
+		if isSMTP && c.Server.Final.Kind == "plain" && (se.Code/100 == 4 || se.Code/100 == 5) {
+			want = se.Code // (the server's choice of a negative code)
+		}
 		if !isSMTP || se.Code != want {
 			return failf("client-result", "server refused with %d but Auth returned %v", want, authErr)
 		}
